@@ -16,7 +16,7 @@ def run(ctx):
         consts.update({"SigForms": '{"full", "nov", "rflip", "empty"}'})
     r = ctx.model_check("net", "MC_Handshake", "MC_Handshake.cfg", constants=consts, coverage=True,
                         timeout=ctx.pick(600, 3000))
-    ctx.check_coverage(r, ["Start", "ReplayTranscript", "ToAcceptor", "ToDialer", "OtherIds"])
+    ctx.check_coverage(r, ["Start", "ReplayTranscript", "ToAcceptor", "ToDialer", "OtherIds", "Misuse", "FreshMisuse"])
     if not ctx.quick():
         r2 = ctx.model_check("net", "MC_Handshake", "MC_Handshake.cfg", constants={"MaxOps": 9, "Sessions": "{1, 2, 4}"},
                              coverage=True, timeout=3000, label="all encodings")
@@ -30,14 +30,17 @@ def run(ctx):
     # every message the attacker can deliver on a connection opened by replaying a's recorded SecureRequest
     tx = ctx.behaviours("net", "Gen_Handshake", "Gen_Handshake.cfg",
                         constants=dict({"MaxOps": 3, "Depth": 3, "Sessions": "{1, 4}"}, **red), timeout=900)
+    mis = [b for b in tx if any(st["op"] in ("misuse", "freshmisuse") for st in b)
+           and not any(st["op"] == "replaytx" for st in b)]
     tx = [b for b in tx if any(st["op"] == "replaytx" for st in b)]
-    bs = bs + tx
+    bs = bs + tx + mis
     walks = ctx.behaviours("net", "Gen_Handshake", "Gen_Handshake.cfg", constants={"MaxOps": 12, "Depth": 12},
                            simulate="num=%d" % ctx.pick(500, 5000), depth=14, seed=ctx.seed, timeout=1500)
     allb = bs + walks
     # vacuity guard on the generated cases: every verdict class of the spec must occur
     seen = {st["res"] for b in allb for st in b}
-    missing = {"accept", "error:pubkey", "error:sigparse", "error:verify", "error:self", "error:remote"} - seen
+    missing = {"accept", "error:pubkey", "error:sigparse", "error:verify", "error:self", "error:remote",
+               "error:decode", "error:sequence", "error:param"} - seen
     from vlib import MachineryError
     if missing:
         raise MachineryError("vacuity: verdict classes never generated: %s" % sorted(missing))
